@@ -963,14 +963,18 @@ func (p *parser) validateStructAlias(aliasTokens []token.Token, fields []*ast.Va
 		}
 	}
 
-	for typ, wasUnified := range genericUnifiedMap {
-		if !wasUnified {
-			err := ddperror.New(ddperror.SEM_UNABLE_TO_UNIFY_FIELD_TYPES, ddperror.LEVEL_ERROR,
-				token.NewRange(&aliasTokens[len(aliasTokens)-1], &aliasTokens[len(aliasTokens)-1]),
-				fmt.Sprintf("Der generische Typ %s konnte nicht unifiziert werden", typ),
-				p.module.FileName,
-			)
-			return &err, nil
+	// in the order of the fields (not of the map), so that the reported type does not change from run to run
+	for _, v := range fields {
+		genericTypes, _ := ddptypes.CastDeeplyNestedGenerics(v.Type)
+		for _, typ := range genericTypes {
+			if !genericUnifiedMap[typ.Name] {
+				err := ddperror.New(ddperror.SEM_UNABLE_TO_UNIFY_FIELD_TYPES, ddperror.LEVEL_ERROR,
+					token.NewRange(&aliasTokens[len(aliasTokens)-1], &aliasTokens[len(aliasTokens)-1]),
+					fmt.Sprintf("Der generische Typ %s konnte nicht unifiziert werden", typ.Name),
+					p.module.FileName,
+				)
+				return &err, nil
+			}
 		}
 	}
 	return nil, args
